@@ -14,13 +14,13 @@ ID = 'C17'
 LEVEL = 'exploration'
 RULE = ('hostile scripts: in each victim state (contact header not yet sent by the peer, contact done, established, victim transfer in '
         'progress, peer transfer in progress, terminating) the peer sends 1-4 messages drawn from: segment START/middle/END with matching or '
-        'foreign transfer id, XFER_ACK / XFER_REFUSE for known and unknown ids, SESS_TERM, SESS_INIT again, KEEPALIVE, MSG_REJECT, an unknown '
+        'foreign transfer id, XFER_ACK / XFER_REFUSE for known and unknown ids (including a final ACK for the transfer of the victim itself while that is still in progress behind a full socket buffer), SESS_TERM, SESS_INIT again, KEEPALIVE, MSG_REJECT, an unknown '
         'message type, a contact header with wrong magic or version; interleaved with honest transfers and honest ACKs for the victim\'s '
         'own bundles. Non-trivial: at least one message of the classes named in the statement was delivered; distinct = digest of '
         '(role, script).')
 COMPONENTS = tc.COMPONENTS
 PROBES = ('hostile.pre-session', 'hostile.unknown-id', 'hostile.no-transfer', 'hostile.unknown-type', 'hostile.bad-contact',
-          'hostile.other', 'probe.victim_transfer_completed', 'probe.followup_processed', 'probe.escaped_exception')
+          'hostile.other', 'probe.victim_transfer_completed', 'probe.followup_processed', 'probe.queued_before_session', 'probe.final_ack_while_in_progress')
 ASSUMPTIONS = ['the reject/terminate/close clause is demanded only for the message classes the statement lists; for other hostile '
                'input only: no escaped exception, no mixed data, own transfers unharmed']
 CHUNK = 20
@@ -40,7 +40,7 @@ def _hostile(ch, state):
         cls = 'pre-session' if what in ('seg-start', 'seg-mid', 'ack', 'refuse', 'term') else 'other'
         return dict(cls=cls, what=what, tid=ch.pick('tid', 5))
     what = ch.choice('est', ('seg-mid-none', 'seg-end-none', 'seg-foreign', 'ack-unknown', 'refuse-unknown', 'ack-unknown',
-                             'init-again', 'keepalive', 'reject', 'start-nested', 'unknown-type'))
+                             'init-again', 'keepalive', 'reject', 'start-nested', 'unknown-type', 'ack-own-end', 'ack-own-end'))
     cls = {'seg-mid-none': 'no-transfer', 'seg-end-none': 'no-transfer', 'seg-foreign': 'no-transfer',
            'ack-unknown': 'unknown-id', 'refuse-unknown': 'unknown-id', 'unknown-type': 'unknown-type'}.get(what, 'other')
     return dict(cls=cls, what=what, tid=1000 + ch.pick('tid', 5), mid=ch.choice('unk', (0x08, 0x7F, 0xFF, 0x00)))
@@ -58,6 +58,10 @@ def gen(ch, tier):
         # a bad contact header ends the conversation
     else:
         script.append(dict(step='contact'))
+        if ch.coin('early-send', 1, 3):
+            # a bundle queued by the user before the session is established (it is sent once it is)
+            script.append(dict(step='victim_send', len=ch.choice('vlen', (1, 40, 300)), tag=tag, early=True))
+            tag += 1
         for _ in range(ch.weighted('n.contact-done', (4, 2, 1))):
             script.append(dict(step='hostile', state='contact-done', msg=_hostile(ch, 'contact-done')))
         script.append(dict(step='init'))
@@ -68,8 +72,10 @@ def gen(ch, tier):
             if kind == 0:
                 script.append(dict(step='hostile', state='established', msg=_hostile(ch, 'established')))
             elif kind == 1:
-                script.append(dict(step='victim_send', len=ch.choice('vlen', (1, 40, 300)), tag=tag))
+                script.append(dict(step='victim_send', len=ch.choice('vlen', (1, 40, 300, 3000)), tag=tag))
                 tag += 1
+                if ch.coin('own-ack', 1, 3):
+                    script.append(dict(step='hostile', state='established', msg=dict(cls='other', what='ack-own-end')))
             elif kind == 2:
                 script.append(dict(step='honest_xfer', tid=peer_tid, tag=tag, sizes=[ch.choice('hs', (1, 20, 60)) for _ in range(1 + ch.pick('hn', 3))]))
                 peer_tid += 1
@@ -80,7 +86,9 @@ def gen(ch, tier):
                                    inject_after=1 + ch.pick('inj', 2), msg=_hostile(ch, 'established')))
                 peer_tid += 1
                 tag += 1
-    return dict(scenario='tcpcl_adversary', role=role, cfg=cfg, chunk_size=10240, script=script)
+    # a bounded socket buffer keeps the victim's own transfers in progress while the peer talks
+    return dict(scenario='tcpcl_adversary', role=role, cfg=cfg, chunk_size=10240, script=script,
+                net=dict(tcp_capacity=ch.choice('cap', (1 << 30, 1 << 30, 300))))
 
 
 def _encode_hostile(msg, cur_tid=None):
@@ -158,9 +166,19 @@ def _responded(har, before):
 
 def _do_hostile(run, har, msg, state):
     before = len(har.vmsgs)
-    data = _encode_hostile(msg)
+    if msg['what'] == 'ack-own-end':
+        # a final acknowledgement for the victim's most recent transfer, whatever state that is in (queued, in progress, already acknowledged)
+        (tid, size) = (int(har.queued[-1][1]), len(har.queued[-1][2])) if har.queued else (1, 5)
+        hdl = har.victim_state()
+        cur = getattr(hdl, '_tx_tmp', None) if hdl is not None else None
+        if cur is not None and cur.transfer_id == tid:
+            run.stats['probe.final_ack_while_in_progress'] = 1
+        data = rfc9174.encode(dict(kind='XFER_ACK', flags=1, transfer_id=tid, length=size))
+    else:
+        data = _encode_hostile(msg)
     har.deliver(data)
-    har.settle()
+    # the answer may be queued behind output that a full socket buffer holds back: read until the victim is silent
+    har.settle_all()
     run.stats['hostile.' + msg['cls']] = run.stats.get('hostile.' + msg['cls'], 0) + 1
     if har.wld.counters.get('escaped-exception'):
         # consequences of an escaped exception are reported once, as that
@@ -193,9 +211,11 @@ def _drive(run, plan, har):
             _do_hostile(run, har, step['msg'], state)
         elif kind == 'victim_send':
             hdl = har.victim_state()
-            if hdl is not None and hdl._in_sess and not hdl._in_term:
+            if hdl is not None and (hdl._in_sess or step.get('early')) and not hdl._in_term:
                 har.user_send(body_for(step['tag'], step['len']))
                 har.settle()
+                if step.get('early'):
+                    run.stats['probe.queued_before_session'] = 1
         elif kind == 'honest_xfer':
             body = body_for(step['tag'], sum(step['sizes']))
             peer_bodies[str(step['tid'])] = body
@@ -218,8 +238,16 @@ def _drive(run, plan, har):
     if alive and hdl is not None and hdl._in_sess and not in_term and not har.hang:
         probe = body_for(9999, 33)
         before = len(har.vmsgs)
+        for _round in range(400):
+            # let the victim finish what a full socket buffer held back, acknowledging as it goes
+            seen = state['answered']
+            _ack_victim(run, har, state)
+            har.settle_all()
+            if state['answered'] == seen and state['answered'] >= len([msg for msg in har.vmsgs if msg['kind'] == 'XFER_SEGMENT']):
+                break
+        before = len(har.vmsgs)
         har.deliver(rfc9174.encode(dict(kind='XFER_SEGMENT', flags=3, transfer_id=900, ext=[rfc9174.xfer_length_ext(33)], data=probe)))
-        har.settle()
+        har.settle_all()
         peer_bodies['900'] = probe
         acks = [msg for msg in har.vmsgs[before:] if msg['kind'] == 'XFER_ACK' and msg['transfer_id'] == 900]
         if not acks:
@@ -232,7 +260,9 @@ def _drive(run, plan, har):
         for evt in har.wld.hist:
             if evt[3] == 'dbus-signal' and evt[5] == 'send_bundle_finished' and evt[7][2] == 'success':
                 done.add(evt[7][0])
-        refused = set(str(step['msg'].get('tid')) for step in plan['script'] if step.get('msg') and step['msg']['what'].startswith('refuse'))
+        # a refusal that is itself out of place (before the session exists) is rejected, not acted on
+        refused = set(str(step['msg'].get('tid')) for step in plan['script']
+                      if step.get('msg') and step['msg']['what'].startswith('refuse') and step.get('state') != 'contact-done')
         for (_seq, tid, body) in har.queued:
             if tid not in done and tid not in refused:
                 run.viols.append(('own-transfer', 'not-completed-' + _cause(run), 'victim transfer %s (%d octets) did not complete although the session stayed up' % (tid, len(body))))
